@@ -339,6 +339,21 @@ class Sim:
                         self.keep.append(t)
                         if sig_extra["arg"] != "own-trigger":
                             self.imported.add(id(t))
+            elif k == "wrap":
+                # a DETACHED trigger built from the component lists of a trigger another scenario holds, then appended:
+                # the list constructor has to copy the foreign components (in the model: append with copy-first)
+                _, u, ref = op
+                from AoE2ScenarioParser.objects.data_objects.trigger import Trigger
+                src = self.tref(ref)
+                tm = self.tm(u)
+                if self.classify(u, src) != "foreign-trigger":
+                    raise ValueError("wrap needs a trigger held by another scenario")
+                sig_extra["arg"] = "detached-trigger-built-from-foreign-lists"
+                t = Trigger(name=src.name, description_stid=src.description_stid, effects=src.effects, conditions=src.conditions,
+                            trigger_id=src.trigger_id)
+                self.keep += [src, t] + list(tm.triggers)
+                tm.triggers.append(t)
+                self.imported.add(id(t))
             elif k == "remove":
                 _, u, i = op
                 tm = self.tm(u)
@@ -431,6 +446,8 @@ def cmd_of(op):
     if k == "adopt":
         _, u, how, pos, refs, cf = op
         return f"adopt {u} {how} {pos if pos is not None else '-'} {','.join(refs) or '-'} {int(bool(cf))}"
+    if k == "wrap":
+        return f"adopt {op[1]} append - {op[2]} 1"
     if k == "remove":
         return f"remove {op[1]} {op[2]}"
     if k == "save":
@@ -621,6 +638,8 @@ def gen_history(rng, env, cfg, avoid, n, length, base):
                 if len({id(o) for o in objs}) != len(objs):
                     continue
             v = ops_add(("adopt", u, how, pos, refs, cf))
+            if v is None and pool_for and rng.random() < 0.3:
+                v = ops_add(("wrap", u, rng.choice(pool_for)))
         elif r < 0.94:
             if L == 0:
                 continue
@@ -913,6 +932,12 @@ def structured_cases():
                         continue
                     ops += [["save", 1], ["adopt", 2, how, pos, [ref], cf], ["edit", "s2.0", "name", 55], ["save", 1], ["save", 2]]
                     out.append({"n": 2, "base": "small", "ops": ops})
+    # a detached trigger built from the component lists of a foreign trigger, appended to an empty / non-empty receiver
+    for recv in (0, 2):
+        for ref in ("s1.0", "s1.1", "s1.2"):
+            ops = list(base) + [["addtrig", 2, 20 + i] for i in range(recv)]
+            ops += [["save", 1], ["wrap", 2, ref], ["edit", f"s2.{recv}.e0", "val", 91], ["edit", f"s2.{recv}", "name", 56], ["save", 1], ["save", 2]]
+            out.append({"n": 2, "base": "small", "ops": ops})
     # three scenarios, chain of imports, removal of the sources afterwards
     out.append({"n": 3, "base": "small", "ops": base + [["addtrig", 2, 1], ["addtrig", 3, 2], ["import", 2, ["s1.0", "s1.1"]],
                                                        ["import", 3, ["s2.1", "s2.2"]], ["save", 3], ["remove", 1, 0], ["remove", 2, 1],
